@@ -22,7 +22,7 @@ type KCase struct {
 
 // features gated off because they trigger a known finding owned by another property.
 // (names of spec features; see known_findings.json)
-var gatedForExecution = []string{"variadic"}
+var gatedForExecution = []string{}
 
 func execOpts(c *Ctx, o spec.Opts) spec.Opts {
 	if o.Allow == nil {
